@@ -350,6 +350,18 @@ def run_case(c, per_cfg_s):
 if __name__ == "__main__":
     payload = json.load(sys.stdin)
     signal.signal(signal.SIGALRM, implutil._alarm)
+    if payload.get("levels_upto"):
+        # the level hilbert_chip_order picks for a machine of max dimension n, read off by replacing the curve
+        # generator (from outside) with the identity on its argument
+        chip_order_fn = REC["hil_c"].orig
+        orig_curve = hilbert.hilbert
+        hilbert.hilbert = lambda level: [level]
+        try:
+            levels = [[n, list(chip_order_fn(Machine(n, 1 + n // 3)))[0]] for n in range(0, payload["levels_upto"] + 1)]
+        finally:
+            hilbert.hilbert = orig_curve
+        json.dump(dict(levels=levels), sys.stdout)
+        sys.exit(0)
     res = []
     for case in payload["cases"]:
         res.append(run_case(case, payload.get("per_cfg_s", 10)))
